@@ -117,13 +117,16 @@ def analyze(modname, fname, cond_timeout, path_timeout, flags=()):
 
 
 def main():
-    """argv: <harness_module> <cond_timeout> <path_timeout> [flags]; stdin: JSON list of jobs
-    {"id":..., "func":..., "shard": {...}}; one "RESULT <json>" line per job (with the job id)."""
+    """argv: <harness_module> <cond_timeout> <path_timeout> [flags]; stdin: one JSON job per line
+    {"id":..., "func":..., "shard": {...}}; answers each with one "RESULT <json>" line (with the job id)."""
     modname, ct, pt = sys.argv[1:4]
     flags = sys.argv[4:]
     sys.path.insert(0, os.path.dirname(os.path.dirname(os.path.abspath(__file__))))
-    jobs = json.loads(sys.stdin.read())
-    for job in jobs:
+    for line in sys.stdin:
+        line = line.strip()
+        if not line:
+            continue
+        job = json.loads(line)
         try:
             mod = importlib.import_module(modname)
             if hasattr(mod, "set_shard"):
